@@ -1285,6 +1285,7 @@ impl<'a> Query<'a> {
         match querystring.split(QUERYSPLITCHARS).next() {
             Some("WHERE") => querystring = querystring["WHERE".len()..].trim_start(),
             Some("{") | Some("") | None => {} //no-op (select all, end of query, no where clause)
+            Some(x) if x.starts_with('}') || x.starts_with('|') => {} //no-op (sub-query without where clause)
             _ => {
                 return Err(StamError::QuerySyntaxError(
                     format!(
@@ -1799,11 +1800,14 @@ impl<'a> Query<'a> {
 
         if self.has_subqueries() {
             s += "\n{\n";
-            for subquery in self.subqueries() {
+            for (i, subquery) in self.subqueries().enumerate() {
+                if i > 0 {
+                    s += "\n|";
+                }
                 s.push(' ');
                 s += &subquery.to_string()?;
             }
-            s += "}";
+            s += "\n}";
         }
         Ok(s)
     }
